@@ -297,6 +297,36 @@ pub fn oracle(args: &Args) {
                 made += 1;
             }
         }
+        // heavy --n N --seed S: legal positions whose depth-1 search is already huge (many queens)
+        "heavy" => {
+            crate::init();
+            let n = args.u64("--n", 20);
+            let seed = args.u64("--seed", 1);
+            let mut rng = Rng::new(seed, 781);
+            let mut made = 0;
+            let mut tries = 0;
+            while made < n && tries < n * 400 {
+                tries += 1;
+                let Some(p) = crate::mon_search::quiescence_heavy(&mut rng) else { continue };
+                // keep those whose first iteration alone takes `--min-polls` polls (10 000 nodes each)
+                let min_polls = args.u64("--min-polls", 5);
+                let polls = crate::mon_search::depth1_polls(&p, min_polls);
+                if args.flag("--print-polls") {
+                    eprintln!("polls {polls}");
+                }
+                if polls < min_polls {
+                    continue;
+                }
+                let mut replies: Vec<String> = p.legal_moves().iter().map(|m| m.uci()).collect();
+                if replies.is_empty() {
+                    continue;
+                }
+                replies.sort();
+                let fen = p.to_fen(EpConv::Always);
+                println!("pos\t{}\t\t{}\t{}", fen, fen, replies.join(" "));
+                made += 1;
+            }
+        }
         // hostile --n N --seed S: corrupted FEN texts with our own verdict on rank widths
         "hostile" => {
             let n = args.u64("--n", 100);
